@@ -61,6 +61,22 @@ class Check:
     def anchor_missing(self, rule, msg):
         self.bad(rule, "anchor-missing:" + msg[:80], "-", "anchor-missing: " + msg)
 
+    def rule(self, fn, *args, **kw):
+        """run one rule on its own: a rule that cannot digest the shape of the (changed) code - an anchor function is
+        gone, an idiom it was not written for makes it raise - reports that for itself, and the rules after it still run"""
+        import traceback
+        from .prog import AnchorMissing
+        try:
+            return fn(*args, **kw)
+        except AnchorMissing as e:
+            self.anchor_missing("anchor", f"{getattr(fn, '__name__', '?')}: {e}")
+        except Exception as e:  # noqa: BLE001
+            traceback.print_exc()
+            tb = traceback.extract_tb(e.__traceback__)
+            where = next((f"{os.path.basename(fr.filename)}:{fr.name}" for fr in reversed(tb) if "/props/" in fr.filename), getattr(fn, "__name__", "?"))
+            self.anchor_missing("rule-cannot-analyse", f"{where}: {type(e).__name__}: {str(e)[:120]}")
+        return None
+
     def undecided(self, rule, key, where, msg):
         """the rule does not understand the code in front of it (an idiom it was not written for): no verdict"""
         self.bad(rule, "cannot-decide:" + key, where, "cannot decide: " + msg)
